@@ -44,6 +44,7 @@ static void ns_create (unsigned value)
 {
 	SEM_INC (g_next_id); ns_id = g_next_id; ns_value = value; ns_exists = 1;
 }
+#ifdef VERIF_PEER_OPENER
 /* first-open race (C07): a second process that has already opened the segment this process just created runs its
  * own "open the lock, create it if missing" step (sem_open with O_CREAT, value 1) at some point between this
  * process's semaphore system calls, and keeps the handle it got */
@@ -56,6 +57,9 @@ static void peer_open_step (void)
 	if (!ns_exists) ns_create (1);
 	g_peer_holds = 1; g_peer_id = ns_id;
 }
+#else
+#define peer_open_step() ((void) 0)
+#endif
 static void env_sem_step (void)
 {
 	peer_open_step ();
